@@ -18,7 +18,7 @@ func init() { checks["C07"] = c07 }
 func c07(args []string) {
 	c := chk.New("C07", "exploration", args)
 	c.Build(false)
-	c.Rule("[silent stdin] the workflow program's standard input is an open pipe nobody writes to and the tools read their standard input to the end before they start (2-core tasks at limit 2, one-core tasks behind them): a run that stops making progress while a command holds the program's own stdin is a violation; [serial process beside another] a process with Spawn = false whose first task meets a task of another process inside its command, at limit 2: a task that has taken slots and not begun its command for seconds while a member of the group gives up is a slot held idle; (a) mixed-cores contention workloads (max in {2,3,4,6}, multisets of task classes with cores in 1..max; every fourth workload has an additional process with CoresPerTask = 0, in every fifth the commands of one process print 200 kB while they hold their slots) with yields of up to 3 ms at slots.before_lock / slots.deposit / slots.release so that token-by-token acquisitions of different tasks interleave whenever the lock does not prevent it: must terminate (structural hang classifier, never elapsed time); (a1) one task waiting more than 10 s for the only slot; (a3) a streaming-only producer in front of a task that needs every slot, a Concatenator between tasks with a single slot, a FileSplitter in front of tasks that need every slot: must terminate; (a2) the same with outputs of waiting tasks appearing on disk while they wait (written by sibling tasks): must terminate with every slot given back (shadow counter 0) and every task either run or skipped; (b) rendezvous groups (max in {2,3,4,6, NumCPU+2}; thorough also 2*NumCPU+1): k tasks with k*cores <= max and nothing else ready must all be inside their command at the same time (each announces itself and waits for k announcements; completion is the witness; on expiry the hook event log decides: a waiter blocked in the slot acquisition although free >= needed is a violation, anything else inconclusive); (b3) two workflows in one program: a task of X waiting for X's only slot must not keep Y's tasks from Y's free slots (one rendezvous group across both); (d) workloads driven through the exported task API (NewTask, Execute, Done) with a core count per task that differs from the process's CoresPerTask, all tasks started at once and a last task that needs every slot: must terminate with every output finalized; (c) CoresPerTask > max must be refused by the library (exit != 0 with its own message, no command of that process), a Go-runtime deadlock report is not a refusal. distinct_nontrivial = distinct (max, cores multiset, interleaving signature) of contention runs in which >= 2 tasks overlapped their acquisitions' waiting, plus completed rendezvous groups and refusals")
+	c.Rule("[oversize through partial runs] the oversize-CoresPerTask workflows are also started through RunTo / RunToRegex / RunToProcs; [silent stdin] the workflow program's standard input is an open pipe nobody writes to and the tools read their standard input to the end before they start (2-core tasks at limit 2, one-core tasks behind them): a run that stops making progress while a command holds the program's own stdin is a violation; [serial process beside another] a process with Spawn = false whose first task meets a task of another process inside its command, at limit 2: a task that has taken slots and not begun its command for seconds while a member of the group gives up is a slot held idle; (a) mixed-cores contention workloads (max in {2,3,4,6}, multisets of task classes with cores in 1..max; every fourth workload has an additional process with CoresPerTask = 0, in every fifth the commands of one process print 200 kB while they hold their slots) with yields of up to 3 ms at slots.before_lock / slots.deposit / slots.release so that token-by-token acquisitions of different tasks interleave whenever the lock does not prevent it: must terminate (structural hang classifier, never elapsed time); (a1) one task waiting more than 10 s for the only slot; (a3) a streaming-only producer in front of a task that needs every slot, a Concatenator between tasks with a single slot, a FileSplitter in front of tasks that need every slot: must terminate; (a2) the same with outputs of waiting tasks appearing on disk while they wait (written by sibling tasks): must terminate with every slot given back (shadow counter 0) and every task either run or skipped; (b) rendezvous groups (max in {2,3,4,6, NumCPU+2}; thorough also 2*NumCPU+1): k tasks with k*cores <= max and nothing else ready must all be inside their command at the same time (each announces itself and waits for k announcements; completion is the witness; on expiry the hook event log decides: a waiter blocked in the slot acquisition although free >= needed is a violation, anything else inconclusive); (b3) two workflows in one program: a task of X waiting for X's only slot must not keep Y's tasks from Y's free slots (one rendezvous group across both); (d) workloads driven through the exported task API (NewTask, Execute, Done) with a core count per task that differs from the process's CoresPerTask, all tasks started at once and a last task that needs every slot: must terminate with every output finalized; (c) CoresPerTask > max must be refused by the library (exit != 0 with its own message, no command of that process), a Go-runtime deadlock report is not a refusal. distinct_nontrivial = distinct (max, cores multiset, interleaving signature) of contention runs in which >= 2 tasks overlapped their acquisitions' waiting, plus completed rendezvous groups and refusals")
 	c.Assume("head-of-line blocking behind a waiting multi-core task is legal: rendezvous groups are homogeneous and run with nothing else ready", "yields only make legal interleavings frequent (Go is preemptive)")
 	rng := c.Rand("c07")
 	type job struct {
@@ -249,6 +249,14 @@ func c07(args []string) {
 				s.Proc("w1").Prepend = "env VERIF_WRAPPED=1"
 			}
 			jobs = append(jobs, &job{s: s, bh: bh, cfg: Cfg{Buf: 128, Procs: 4}, kind: "oversize"})
+			{
+				// the same workflow started through RunTo / RunToRegex / RunToProcs with the oversize process as the target
+				s3 := s.Clone()
+				s3.Name += "_runto"
+				mode := []string{"runto", "runtoregex", "runtoprocs"}[(max+extra)%3]
+				s3.Run = spec.Run{Mode: mode, Targets: []string{map[string]string{"runto": "w1", "runtoregex": "^w1$", "runtoprocs": "w1"}[mode]}}
+				jobs = append(jobs, &job{s: s3, bh: bh, cfg: Cfg{Buf: 128, Procs: 4, SoftSec: 6}, kind: "oversize"})
+			}
 			// the oversize process as the last step without out-ports (it becomes the driver)
 			s2 := s.Clone()
 			s2.Name += "_leaf"
